@@ -46,6 +46,7 @@ MIN_REACH = {
     "cases_reaped_through_the_object_that_reaped_an_earlier_crop": {"quick": 5, "thorough": 60},
     "partial_reaps_of_a_harvester_crop_without_sync": {"quick": 8, "thorough": 100},
     "crops_without_a_saved_function_reaped_through_bare_handles": {"quick": 6, "thorough": 60},
+    "partial_reaps_with_warnings_turned_into_errors": {"quick": 50, "thorough": 800},
 }
 TIME_BUDGET = {"quick": 400, "thorough": 3400}
 CASE_TIMEOUT = {"quick": 300, "thorough": 900}
@@ -354,7 +355,15 @@ def run_case(ctx, case):
                     pkw["sync"] = False
                     ctx.count("partial_reaps_of_a_harvester_crop_without_sync")
                 try:
-                    res = do_reap(c, allow_incomplete=True, **pkw)
+                    if (case["idx"] + len(S)) % 5 == 0:
+                        # the reaping program turns warnings into errors (python -W error, pytest filterwarnings=error)
+                        import warnings
+                        with warnings.catch_warnings():
+                            warnings.simplefilter("error")
+                            res = do_reap(c, allow_incomplete=True, **pkw)
+                        ctx.count("partial_reaps_with_warnings_turned_into_errors")
+                    else:
+                        res = do_reap(c, allow_incomplete=True, **pkw)
                 finally:
                     if racing:
                         del c.farmer.add_ds
